@@ -75,7 +75,7 @@ def _job(args):
                 for k in range(1, max(1, depth_max) + 1):
                     lim = scan.real_scan(base, root, mp, level_limit=k, **opts)
                     out["n"] += 1
-                    case = dict(dirs=[list(d) for d in dirs], files={scan.dotted(f): (scan.render_file(v["body"]) if v["py"] else None) for f, v in files.items()},
+                    case = dict(dirs=[list(d) for d in dirs], files={scan.dotted(f): (scan.render_v(v) if v["py"] else None) for f, v in files.items()},
                                 module_path=list(mp), level_limit=k, options={kk: list(vv) if isinstance(vv, tuple) else vv for kk, vv in opts.items()})
                     if lim[0] != "OK":
                         out["violations"].append((dict(case, error=lim[1]), f"scan with level_limit={k} failed", {"kind": "scan_error"}))
